@@ -35,7 +35,7 @@ MAXCYC = 400
 
 def plan(tier, seed):
     if tier == "quick":
-        k, n, rnd = 1, 4, 40
+        k, n, rnd = 1, 4, 200
     else:
         k, n, rnd = 2, 5, 300
     pats = list(itertools.product(range(k + 1), repeat=n))
